@@ -342,7 +342,13 @@ impl<'a, 'tcx> H<'a, 'tcx> {
                 }
                 o
             }
-            ExprKind::Continue(_) => vec![("k", J::s("continue"))],
+            ExprKind::Continue(dest) => {
+                let mut o = vec![("k", J::s("continue"))];
+                if let Ok(t) = dest.target_id {
+                    o.push(("to", J::N(t.local_id.as_usize() as i128)));
+                }
+                o
+            }
             ExprKind::Ret(x) => {
                 let mut o = vec![("k", J::s("ret"))];
                 if let Some(x) = x {
